@@ -4,6 +4,7 @@ from __future__ import annotations
 from .. import bootstrap, gen, interp, model
 from ..common import exc_str, names_rows, short
 from ..dbx import DB, BuildFailure, Builder, make_engines
+from lsst.daf.relation import sql as Rsql  # noqa: E402
 
 bootstrap.ensure()
 
@@ -41,8 +42,8 @@ def gen_case(rng, tier):
                       weights={"proj": 1.6, "dedup": 1.5, "slice": 1.5, "chain": 1.3}, total_sort_prob=0.4,
                       max_depth=2 if tier == "quick" or rng.random() < 0.6 else 3, leaf_cols=rng.choice(["abcd", "ab", "a"]))
     else:
-        cfg = gen.Cfg(engines=("sql",), ops=("calc", "proj", "sel", "dedup", "sort", "slice", "chain", "join"), raw_leaves=False,
-                      weights={"proj": 1.6, "dedup": 1.5, "slice": 1.5, "join": 1.5, "chain": 1.3}, sort_then_slice_prob=0.6,
+        cfg = gen.Cfg(engines=("sql",), ops=("calc", "proj", "sel", "dedup", "sort", "slice", "chain", "join", "mat"), raw_leaves=False,
+                      weights={"proj": 1.6, "dedup": 1.5, "slice": 1.5, "join": 1.5, "chain": 1.3, "mat": 0.5}, sort_then_slice_prob=0.6,
                       max_depth=2 if tier == "quick" or rng.random() < 0.6 else 3, leaf_cols=rng.choice(["abcd", "ab", "a"]))
     g = gen.Gen(rng, cfg)
     state = g.tree()
@@ -112,41 +113,7 @@ def run_case(case):
         label = model.show(prog)
         nodes = list(interp.walk(rel))
         shapes = set()
-        for node in nodes[:40]:
-            try:
-                if engine == "sql":
-                    if isinstance(node, (R.Materialization, R.Transfer)):
-                        continue
-                    rows = db.run(node, engines["sql"])
-                else:
-                    rows = list(node.engine.execute(node))
-            except Exception as exc:  # noqa: BLE001
-                if node is not rel and "will not preserve row order" in str(exc):
-                    # an inner node that is only valid in its context (re-conforming it on its own
-                    # trips the row-order policy); not a metadata matter
-                    c["inner_nodes_not_executable_alone"] = c.get("inner_nodes_not_executable_alone", 0) + 1
-                    continue
-                out["violations"].append({"kind": "node_not_executable", "detail": f"{label}: node {short(node)}: {exc_str(exc)}"})
-                continue
-            check_node(node, rows, out, label)
-            shapes.add(("z" if not node.columns else "c") + ("0" if node.max_rows == 0 else ("N" if node.max_rows is None else "b")) + ("I" if node.is_join_identity else ""))
-        # content of every sub-program against the model (exercises the short-cut consumers)
         m = model.Model(case["leaves"], sql_slices=(engine == "sql"), key_dedup=(engine == "it"), strict_fragile=True)
-        for sub, subrel in b.nodes:
-            try:
-                want = m.eval(sub)
-            except model.Skip:
-                c["subprograms_skipped_precondition"] = c.get("subprograms_skipped_precondition", 0) + 1
-                break
-            try:
-                got = names_rows(db.run(subrel) if engine == "sql" else subrel.engine.execute(subrel))
-            except Exception as exc:  # noqa: BLE001
-                out["violations"].append({"kind": "subprogram_not_executable", "detail": f"{model.show(sub)}: {exc_str(exc)}"})
-                break
-            c["subprograms_compared"] = c.get("subprograms_compared", 0) + 1
-            if model.canon(got) != model.canon(want.rows):
-                out["violations"].append({"kind": "subprogram_rows_differ", "detail": f"{model.show(sub)} tree {short(subrel)} got {short(model.canon(got), 250)} want {short(model.canon(want.rows), 250)}"})
-                break
         # the Processor is a consumer of the flags too (it drops chain branches it takes for empty and
         # never evaluates statically trivial transfers): its result must have the model's rows
         try:
@@ -170,6 +137,72 @@ def run_case(case):
                 n = len(got)
                 if n < rel.min_rows or (rel.max_rows is not None and n > rel.max_rows):
                     out["violations"].append({"kind": "processed_row_count_outside_bounds", "detail": f"{label}: {n} rows, declared [{rel.min_rows}, {rel.max_rows}]"})
+        if engine == "sql" and any(isinstance(n, R.Materialization) and n.payload is None for n in nodes):
+            # could not be processed (counted above): its nodes cannot be executed on their own
+            return out
+        for node in nodes[:40]:
+            try:
+                if engine == "sql":
+                    if isinstance(node, (R.Materialization, R.Transfer)):
+                        continue
+                    rows = db.run(node, engines["sql"])
+                else:
+                    rows = list(node.engine.execute(node))
+            except Exception as exc:  # noqa: BLE001
+                if node is not rel and "will not preserve row order" in str(exc):
+                    # an inner node that is only valid in its context (re-conforming it on its own
+                    # trips the row-order policy); not a metadata matter
+                    c["inner_nodes_not_executable_alone"] = c.get("inner_nodes_not_executable_alone", 0) + 1
+                    continue
+                out["violations"].append({"kind": "node_not_executable", "detail": f"{label}: node {short(node)}: {exc_str(exc)}"})
+                continue
+            check_node(node, rows, out, label)
+            shapes.add(("z" if not node.columns else "c") + ("0" if node.max_rows == 0 else ("N" if node.max_rows is None else "b")) + ("I" if node.is_join_identity else ""))
+        # content of every sub-program against the model (exercises the short-cut consumers)
+        for sub, subrel in b.nodes:
+            try:
+                want = m.eval(sub)
+            except model.Skip:
+                c["subprograms_skipped_precondition"] = c.get("subprograms_skipped_precondition", 0) + 1
+                break
+            if engine == "sql" and any(isinstance(n, R.Materialization) and n.payload is None for n in interp.walk(subrel)):
+                # an intermediate relation that is not part of the processed tree
+                c["subprograms_with_unprocessed_materialization"] = c.get("subprograms_with_unprocessed_materialization", 0) + 1
+                continue
+            try:
+                got = names_rows(db.run(subrel) if engine == "sql" else subrel.engine.execute(subrel))
+            except Exception as exc:  # noqa: BLE001
+                out["violations"].append({"kind": "subprogram_not_executable", "detail": f"{model.show(sub)}: {exc_str(exc)}"})
+                break
+            c["subprograms_compared"] = c.get("subprograms_compared", 0) + 1
+            if model.canon(got) != model.canon(want.rows):
+                out["violations"].append({"kind": "subprogram_rows_differ", "detail": f"{model.show(sub)} tree {short(subrel)} got {short(model.canon(got), 250)} want {short(model.canon(want.rows), 250)}"})
+                break
+        # relations that carry a cached payload now (materializations evaluated by the Processor)
+        # keep their declared bounds whatever is built on them and executed afterwards
+        if engine == "sql" and want_root is not None:
+            from ..exprs import elib, plib
+
+            for node in nodes[:40]:
+                if not (isinstance(node, R.MarkerRelation) and not isinstance(node, Rsql.Select) and node.payload is not None and node.columns):
+                    continue
+                col = sorted(t.qualified_name for t in node.columns)[0]
+                try:
+                    before = db.run(node)
+                    db.run(node.with_rows_satisfying(plib(["cmp", "gt", ["ref", col], ["lit", 0]])))
+                    free = [x for x in "efg" if x not in {t.qualified_name for t in node.columns}]
+                    if free:
+                        from ..tags import T
+
+                        db.run(node.with_calculated_column(T(free[0]), elib(["add", ["ref", col], ["lit", 1]])))
+                    after = db.run(node)
+                except Exception as exc:  # noqa: BLE001
+                    out["violations"].append({"kind": "node_not_executable", "detail": f"{label}: cached node {short(node)}: {exc_str(exc)}"})
+                    continue
+                c["cached_nodes_rechecked"] = c.get("cached_nodes_rechecked", 0) + 1
+                check_node(node, after, out, label + " (cached node, after a selection and a calculation on it were executed)")
+                if model.canon(names_rows(after)) != model.canon(names_rows(before)):
+                    out["violations"].append({"kind": "cached_node_rows_changed", "detail": f"{label}: node {short(node)} had {len(before)} rows, now {len(after)}"})
         if len(nodes) >= 3:
             out["sig"] = f"{engine}:{gen.op_signature(prog)}:{''.join(sorted(shapes))}"
             out["sample"] = {"engine": engine, "program": label, "nodes": len(nodes), "root_bounds": [rel.min_rows, rel.max_rows], "bound_shapes": sorted(shapes)}
